@@ -66,9 +66,16 @@ type FuncSpec struct {
 	HTMLLicensed bool
 	Tolerate   *Clause
 	Ghost      []*Clause
+	GhostAt    []GhostAt
 	File       string
 	Line       int
 	Used       bool
+}
+
+type GhostAt struct {
+	Name   string
+	Clause *Clause
+	Callee string
 }
 
 type PredSpec struct {
@@ -109,6 +116,7 @@ func NewSpecs() *Specs {
 
 var labelRe = regexp.MustCompile(`^([A-Za-z_][A-Za-z0-9_\-]*):\s+(.*)$`)
 var typeinvRe = regexp.MustCompile(`^\(\s*(\w+)\s+\*(\w+)\s*\)\s*=\s*(.*)$`)
+var ghostAtRe = regexp.MustCompile(`^(\w+)\s*=\s*(.*?)\s+after\s+([\w.$]+)$`)
 var funcHdrRe = regexp.MustCompile(`^func\s+(?:\(\s*(\w+)?\s*(\*?)\s*([\w]+)\s*\)\s*)?([\w$]+)\s*$`)
 
 type rawLine struct {
@@ -265,8 +273,14 @@ func (sp *Specs) LoadSpecFile(path, pkgName string) {
 					cur.Ensures = append(cur.Ensures, c)
 				}
 			case "ghost":
-				if c := mkClause(l, rest); c != nil {
-					cur.Ghost = append(cur.Ghost, c)
+				// ghost NAME = EXPR after CALLEE   (NAME is bound when a call of CALLEE returns)
+				m := ghostAtRe.FindStringSubmatch(rest)
+				if m == nil {
+					errf(l, "bad ghost clause (want: ghost NAME = EXPR after CALLEE)")
+					continue
+				}
+				if c := mkClause(l, m[2]); c != nil {
+					cur.GhostAt = append(cur.GhostAt, GhostAt{Name: m[1], Clause: c, Callee: m[3]})
 				}
 			case "decreases":
 				for _, part := range splitTop(rest) {
